@@ -55,7 +55,12 @@ def _py_lines(text):
 
 
 def is_snapshot_call(node, names=("snapshot",)):
-    return isinstance(node, ast.Call) and isinstance(node.func, ast.Name) and node.func.id in names
+    if not isinstance(node, ast.Call):
+        return False
+    if isinstance(node.func, ast.Name):
+        return node.func.id in names
+    # the function reached through an attribute: inline_snapshot.snapshot(...), lib().snapshot(...)
+    return isinstance(node.func, ast.Attribute) and node.func.attr in names
 
 
 def snapshot_calls(text, toplevel_only=False):
